@@ -20,6 +20,7 @@ type Solver struct {
 func solvers(seed int, timeoutS int) []Solver {
 	return []Solver{
 		{"z3-new", []string{"z3-new", "-smt2", fmt.Sprintf("-T:%d", timeoutS), fmt.Sprintf("smt.random_seed=%d", seed), fmt.Sprintf("sat.random_seed=%d", seed)}},
+		{"z3-new/seed2", []string{"z3-new", "-smt2", fmt.Sprintf("-T:%d", timeoutS), fmt.Sprintf("smt.random_seed=%d", seed+1000), fmt.Sprintf("sat.random_seed=%d", seed+1000)}},
 		{"z3-new/ematch", []string{"z3-new", "-smt2", fmt.Sprintf("-T:%d", timeoutS), fmt.Sprintf("smt.random_seed=%d", seed), "smt.mbqi=false"}},
 		{"z3-new/norelevancy", []string{"z3-new", "-smt2", fmt.Sprintf("-T:%d", timeoutS), fmt.Sprintf("smt.random_seed=%d", seed), "smt.relevancy=0"}},
 		{"cvc5", []string{"cvc5", "--lang=smt2", fmt.Sprintf("--tlimit=%d", timeoutS*1000), fmt.Sprintf("--seed=%d", seed)}},
